@@ -99,7 +99,7 @@ class SimLink(object):
         return sim.wire_take(k)
 
 
-def make_backend(rng, sim, clock, monitor=None):
+def make_backend(rng, sim, clock, monitor=None, second=False):
     """random device set containing exactly one ADB device wired to the simulator (plus decoys)"""
     devices = []
     ndecoy = rng.randint(0, 3)
@@ -120,7 +120,18 @@ def make_backend(rng, sim, clock, monitor=None):
     link = SimLink(sim, clock, in_ep, out_ep, rng, frag=rng.choice(["whole", "random", "one", "minus1"]), monitor=monitor)
     adb = fakeusb1.USBDevice("SERIAL-%04x" % rng.getrandbits(16), rng.randint(1, 4), [rng.randint(1, 8), rng.randint(1, 8)], settings, link=link, kernel_driver=rng.random() < 0.3)
     devices.insert(rng.randint(0, len(devices)), adb)
+    if second:
+        # a second ADB device on the bus, with another endpoint layout and its own adbd; a transport to it is alive at the same time
+        in2 = 0x80 | rng.choice([e for e in range(1, 16) if (0x80 | e) != in_ep])
+        out2 = rng.choice([e for e in range(1, 16) if e != out_ep])
+        sim2 = simdev.SimDevice(rng=random.Random(rng.random()), clock=clock)
+        link2 = SimLink(sim2, clock, in2, out2, rng, frag="whole")
+        link2.short_writes = False
+        other = fakeusb1.USBDevice("OTHER-%04x" % rng.getrandbits(16), 5, [rng.randint(1, 8)], [fakeusb1.USBInterfaceSetting(rng.randint(0, 5), 0xFF, 0x42, 0x01, [fakeusb1.USBEndpoint(in2), fakeusb1.USBEndpoint(out2)])], link=link2)
+        other.sim = sim2
+        devices.insert(rng.randint(0, len(devices)), other)
     be = fakeusb1.Backend(devices)
+    be.other = other if second else None
     fakeusb1.BACKEND = be
     return be, adb, link, iface
 
@@ -149,11 +160,24 @@ def check_log(be, iface, link, where, viol, stats):
 
 
 def run_direct(case, stats):
-    rng = gen.rng_for("C20", case["seed"])
     viol = []
+    box = {"where": "direct case %s" % case["seed"], "link": None}
+    try:
+        return _run_direct(case, stats, viol, box)
+    except (repo.exceptions.UsbReadFailedError, repo.exceptions.UsbWriteFailedError, repo.exceptions.UsbDeviceNotFoundError, repo.exceptions.InvalidTransportError) as e:
+        # no fault was injected at this point: a transfer of the scripted exchange failed on a healthy device
+        for pr in (box["link"].problems[:1] if box["link"] is not None else []):
+            viol.append({"mechanism": "wrong-endpoint", "detail": "%s: %s" % (box["where"], pr)})
+        viol.append({"mechanism": "healthy-transfer-failed", "detail": "%s: %s: %s" % (box["where"], type(e).__name__, str(e)[:160])})
+        return viol, box["where"]
+
+
+def _run_direct(case, stats, viol, box):
+    rng = gen.rng_for("C20", case["seed"])
     clock = vclock.VClock()
     sim = simdev.SimDevice(rng=random.Random(rng.random()), clock=clock)
-    be, adb, link, iface = make_backend(rng, sim, clock)
+    second = random.Random("2nd" + case["seed"]).random() < 0.25
+    be, adb, link, iface = make_backend(rng, sim, clock, second=second)
     ut = usb_mod()
     exc = repo.exceptions
     default = rng.choice([None, 0.5, 2, 9.25])
@@ -165,6 +189,7 @@ def run_direct(case, stats):
     else:
         t = ut.UsbTransport.find_adb(default_transport_timeout_s=default)
     where = "find_adb(%s) among %d devices, iface %d, IN 0x%02x OUT 0x%02x, default timeout %r" % (how, len(be.devices), iface, link.in_ep, link.out_ep, default)
+    box["where"], box["link"] = where, link
     if t._device is not adb:
         viol.append({"mechanism": "wrong-device", "detail": "%s selected device %r" % (where, t._device.serial)})
         return viol, where
@@ -201,6 +226,27 @@ def run_direct(case, stats):
         viol.append({"mechanism": "use-before-connect", "detail": "%s: bulk_read before connect() raised %s" % (where, type(e).__name__)})
     t.connect(rng.choice([None, 1.0]))
     stats["connects_checked"] += 1
+    t2 = None
+    if be.other is not None:
+        # the other device's transport connects and talks now, and stays open while this one is used
+        from vlib import wire as _w
+        mark = len(be.calls)
+        try:
+            t2 = ut.UsbTransport.find_adb(serial=be.other.serial)
+            t2.connect(None)
+            m2 = _w.pack("CNXN", _w.A_VERSION, _w.HOST_MAXDATA, b"host::second\0")
+            n2 = 0
+            while n2 < len(m2):
+                n2 += t2.bulk_write(m2[n2:], 1.0)
+            hdr = t2.bulk_read(24, 1.0)
+            if hdr[:4] != b"CNXN":
+                viol.append({"mechanism": "second-device", "detail": "%s: the transport to the second ADB device (IN 0x%02x OUT 0x%02x) read %r" % (where, be.other.link.in_ep, be.other.link.out_ep, hdr[:8])})
+        except Exception as e:  # noqa
+            viol.append({"mechanism": "second-device", "detail": "%s: the transport to the second ADB device (IN 0x%02x OUT 0x%02x) failed: %s: %s" % (where, be.other.link.in_ep, be.other.link.out_ep, type(e).__name__, str(e)[:120])})
+        for pr in be.other.link.problems[:1]:
+            viol.append({"mechanism": "wrong-endpoint", "detail": "%s: second device: %s" % (where, pr)})
+        del be.calls[mark:]
+        stats["two_transports"] = stats.get("two_transports", 0) + 1
     # a scripted exchange: host CNXN by hand, device answers
     from vlib import wire
     msgs = [wire.pack("CNXN", wire.A_VERSION, wire.HOST_MAXDATA, b"host::verif\0")]
@@ -301,6 +347,19 @@ def run_direct(case, stats):
         t.close()
     except Exception as e:  # noqa
         viol.append({"mechanism": "reconnect", "detail": "%s: close() then connect() and a write on the same transport object raised %s: %s" % (where, type(e).__name__, str(e)[:100])})
+    if t2 is not None:
+        # the second transport was not disturbed by all of the above
+        try:
+            rest = t2.bulk_read(5000, 1.0)
+            o = be.other.sim
+            want2 = _w.pack("CNXN", o.version, o.maxdata, o.banner)[24:]
+            if rest != want2:
+                viol.append({"mechanism": "second-device", "detail": "%s: the second transport read %d bytes, its device sent %d" % (where, len(rest), len(want2))})
+            t2.close()
+        except Exception as e:  # noqa
+            viol.append({"mechanism": "second-device", "detail": "%s: the second transport failed later: %s: %s" % (where, type(e).__name__, str(e)[:120])})
+        for pr in be.other.link.problems[:1]:
+            viol.append({"mechanism": "wrong-endpoint", "detail": "%s: second device: %s" % (where, pr)})
     return viol, where
 
 
